@@ -22,16 +22,42 @@ _built = {}
 _EXES = {}
 
 
-def _env():
+def _env(debug_arithmetic=False):
     env = dict(os.environ)
-    env['CARGO_TARGET_DIR'] = os.path.join(harness.WORK, 'target-replay')
+    env['CARGO_TARGET_DIR'] = os.path.join(harness.WORK, 'target-replay-dbg' if debug_arithmetic else 'target-replay')
     env['CARGO_NET_OFFLINE'] = 'true'
-    env['CARGO_PROFILE_DEV_OVERFLOW_CHECKS'] = 'false'
-    env['CARGO_PROFILE_DEV_DEBUG_ASSERTIONS'] = 'false'
-    env['CARGO_PROFILE_TEST_OVERFLOW_CHECKS'] = 'false'
-    env['CARGO_PROFILE_TEST_DEBUG_ASSERTIONS'] = 'false'
+    flag = 'true' if debug_arithmetic else 'false'
+    env['CARGO_PROFILE_DEV_OVERFLOW_CHECKS'] = flag
+    env['CARGO_PROFILE_DEV_DEBUG_ASSERTIONS'] = flag
+    env['CARGO_PROFILE_TEST_OVERFLOW_CHECKS'] = flag
+    env['CARGO_PROFILE_TEST_DEBUG_ASSERTIONS'] = flag
     env['RUSTFLAGS'] = env.get('RUSTFLAGS', '') + ' -Awarnings'
     return env
+
+
+_DBG = {}
+
+
+def debug_arithmetic_exes():
+    """the same shadow copy built once more with overflow checks and debug assertions ON (what `cargo build` without --release
+    produces) -- only for obligations that are about the debug profile; built on first use"""
+    key = harness.src_hash()
+    if key in _DBG:
+        return _DBG[key]
+    ok, _secs, _exe = build_shadow()
+    exes = {}
+    if ok:
+        r = subprocess.run(['cargo', 'test', '--offline', '--no-run', '--workspace', '--message-format=json'],
+                           cwd=SHADOW, env=_env(True), stdout=subprocess.PIPE, stderr=subprocess.PIPE)
+        for ln in r.stdout.decode('utf-8', 'replace').splitlines():
+            try:
+                j = json.loads(ln)
+            except Exception:
+                continue
+            if j.get('reason') == 'compiler-artifact' and j.get('executable') and j.get('profile', {}).get('test'):
+                exes[j.get('target', {}).get('name', '')] = j['executable']
+    _DBG[key] = exes
+    return exes
 
 
 def discover_drivers():
@@ -143,6 +169,11 @@ def run_case(driver, case, timeout=30):
     rel = discover_drivers().get(driver) or ''
     if rel.startswith('milu/') and _EXES.get('milu'):
         exe = _EXES['milu']
+    if case.get('arithmetic') == 'debug':
+        dbg = debug_arithmetic_exes()
+        exe = dbg.get('milu' if rel.startswith('milu/') else 'redproxy-rs')
+        if not exe:
+            return {'error': 'debug-arithmetic replay build failed'}
     try:
         r = subprocess.run([exe, 'verif_replay_%s::verif_replay' % driver, '--nocapture', '--test-threads', '1'],
                            cwd=SHADOW, env=env, stdout=subprocess.PIPE, stderr=subprocess.PIPE, timeout=timeout)
